@@ -58,6 +58,8 @@ FinalOk(r) ==
        IF cfg.has_reload THEN x.got = (IF RAccepts(ValueOf(Latest(1000000000)), x.c) THEN 1 ELSE 0)
                          ELSE x.got = Expect(x.d, x.c)
   /\ globalOks <= 1
+  \* every callsite that was registered (offered to some collector) has been offered to every collector that is still alive
+  /\ \A i \in DOMAIN r.offered : \A j \in DOMAIN r.registered : \E k \in DOMAIN r.offered[i].cs : r.offered[i].cs[k] = r.registered[j]
   /\ r.dead_handle_err                     \* a handle whose collector is gone reports an error and changes nothing
 
 Ok(r) ==
